@@ -70,6 +70,30 @@ Qed.
 Print Assumptions C03_tnr_one_rejects_every_negative.
 
 (* non-vacuity: the single-score, right-continuous case that failed before the repair *)
+
+From SA Require Import Proofs.CarrierB64.
+
+(* ---- binary64: the only facts about np.nextafter used above, x < succ x and pred x < x, are theorems about the executable
+   binary64 model (succ64_gt, pred64_lt in Proofs/CarrierB64.v), so every statement above that quantifies over succ / pred
+   holds of that model with no hypothesis on nextafter left.  The statement of X_binary64 is the statement of X with
+   succ := succ64, pred := pred64 and the two hypotheses discharged (computed from X's own type, so it cannot drift). ---- *)
+Theorem C03_extremes_binary64 :
+  ltac:(let t := type of (on_binary64 C03_extremes) in let t' := eval cbv beta in t in exact t').
+Proof. exact (on_binary64 C03_extremes). Qed.
+Print Assumptions C03_extremes_binary64.
+Theorem C03_fpr_zero_lets_no_negative_through_binary64 :
+  ltac:(let t := type of (on_binary64 C03_fpr_zero_lets_no_negative_through) in let t' := eval cbv beta in t in exact t').
+Proof. exact (on_binary64 C03_fpr_zero_lets_no_negative_through). Qed.
+Print Assumptions C03_fpr_zero_lets_no_negative_through_binary64.
+Theorem C03_tpr_one_accepts_every_positive_binary64 :
+  ltac:(let t := type of (on_binary64 C03_tpr_one_accepts_every_positive) in let t' := eval cbv beta in t in exact t').
+Proof. exact (on_binary64 C03_tpr_one_accepts_every_positive). Qed.
+Print Assumptions C03_tpr_one_accepts_every_positive_binary64.
+Theorem C03_tnr_one_rejects_every_negative_binary64 :
+  ltac:(let t := type of (on_binary64 C03_tnr_one_rejects_every_negative) in let t' := eval cbv beta in t in exact t').
+Proof. exact (on_binary64 C03_tnr_one_rejects_every_negative). Qed.
+Print Assumptions C03_tnr_one_rejects_every_negative_binary64.
+
 Example C03_example :
   threshold_at succ64 pred64 MTpr (mk_scores [3#2] [1#1] 0 0 Pos Neg false) 0 Linear = Ret (succ64 (3#2)) /\
   s_tpr (mk_scores [3#2] [1#1] 0 0 Pos Neg false) (Fin (succ64 (3#2))) = Some (0 / (0 + 1)).
